@@ -326,7 +326,7 @@ func check(prop, tier string) int {
 		}
 	}
 	os.MkdirAll(filepath.Join(verifDir, "out", "replay"), 0o755)
-	var nObl, nDis, nCover, nCoverOK, nBounded, nBoundedOK, violations int
+	var nObl, nDis, nCover, nCoverOK, nCoverUndecided, nBounded, nBoundedOK, violations int
 	var solverMs int64
 	var samples []map[string]interface{}
 	var knownOut []string
@@ -339,7 +339,9 @@ func check(prop, tier string) int {
 		}
 		if o.Cover {
 			nCover++
-			if o.ok() {
+			if o.coverUndecided() {
+				nCoverUndecided++
+			} else if o.ok() {
 				nCoverOK++
 			} else {
 				failed = append(failed, o)
@@ -434,7 +436,7 @@ func check(prop, tier string) int {
 			"samples":      samples,
 			"explanation":  "Every obligation is generated from the current /repo working tree (go/packages, -tags verif) for the functions listed in functions_under_contract and must be unsat (valid) in one of the SMT solvers; cover obligations must be sat.",
 			"functions_under_contract": funcs,
-			"cover_obligations":        map[string]int{"total": nCover, "sat": nCoverOK},
+			"cover_obligations":        map[string]int{"total": nCover, "sat": nCoverOK, "undecided": nCoverUndecided},
 			"bounded":                  map[string]int{"total": nBounded, "discharged": nBoundedOK},
 			"discharged_by_solver":     bySolver,
 			"solver_time_s":            float64(solverMs) / 1000.0,
